@@ -231,10 +231,27 @@ class FunctionVerifier:
                         self.frame(eng, mk, shapes, old, s1, env, tag, everything=True)
             else:
                 raise Unsupported("break/continue at function level")
-        # side obligations (shift overflow, callee preconditions)
+        # side obligations (shift overflow, callee preconditions): batched per path condition, split on failure
+        groups = {}
         for ob in eng.side_obligations:
-            self.obligation(eng, mk, shapes, f"{c.qual}/{ob.kind}:{ob.name.split('#')[0]}", ob.name.split('#')[1],
-                            ob.pc, ob.goal, ob.kind)
+            key = (ob.kind if ob.kind == "precondition" else "side", tuple(x.get_id() for x in ob.pc))
+            groups.setdefault(key, []).append(ob)
+        for gi, ((kind, _), obs) in enumerate(groups.items()):
+            if kind == "precondition" or len(obs) == 1:
+                for ob in obs:
+                    self.obligation(eng, mk, shapes, f"{c.qual}/{ob.kind}:{ob.name.split('#')[0]}",
+                                    ob.name.split('#')[1] + (f"@{case}" if case else ""), ob.pc, ob.goal, ob.kind)
+                continue
+            conj = z3.And(*[ob.goal for ob in obs])
+            labels = sorted({ob.name.split('#')[0] for ob in obs})
+            r = self.obligation(eng, mk, shapes, f"{c.qual}/side:no-overflow[{'+'.join(labels)}]",
+                                f"group{gi}" + (f"@{case}" if case else ""), obs[0].pc, conj, "side")
+            r.detail = (r.detail + " " if r.detail else "") + f"conjunction of {len(obs)} side conditions"
+            if r.status != "proved":
+                self.results.remove(r)
+                for ob in obs:
+                    self.obligation(eng, mk, shapes, f"{c.qual}/{ob.kind}:{ob.name.split('#')[0]}",
+                                    ob.name.split('#')[1] + (f"@{case}" if case else ""), ob.pc, ob.goal, ob.kind)
         for label, ok in canary_refuted.items():
             r = Result(f"{c.qual}/canary:{label}{('@' + case) if case else ''}", "canary")
             r.status = "proved" if ok else "refuted"
